@@ -186,7 +186,19 @@ def run(repo, tier):
     lexrules.check_lexer(rep, facts)
     skips_blank = lexrules.check_reader(rep, facts)
     lexrules.check_handover(rep, facts, skips_blank)
-    lexrules.check_register_numbers(rep, facts)
+    try:
+        lexrules.check_register_numbers(rep, facts)
+    except AnalysisError as e:
+        # the lookup is not written inside lookup_register itself (a helper class / method): ask the interprocedural encoder
+        # interpreter whether every register operand is converted with int(., 0) before the table lookup
+        from ..encsum import register_spellings_normalised
+        verdict, bad = register_spellings_normalised(facts)
+        if verdict is None:
+            raise
+        rep.count('register table lookups analysed')
+        rep.check(verdict, 'R13.1.registers', 'numeric register spellings in any base go through int(., 0) (encoder summaries)',
+                  lambda: Finding('R13.1.registers', 'lookup_register', 'register lookup', 'register operands of {} reach the register table without int(., 0): hex / binary register numbers are not recognised'.format(
+                      sorted({m for m, p in bad})[:6]), line=facts.funcs['lookup_register'].lineno if 'lookup_register' in facts.funcs else 1), nontrivial=False)
     check_numeric_literal_test(rep, facts)
     try:
         shared_engine_rules(rep, repo, facts)
